@@ -170,6 +170,39 @@ impl SubCheck for Ctor {
             }
             None => ensure!(!valid, "constructor {k} refused the valid time ({h}, {m}, {s}, {sub})"),
         }
+        // the other constructors of the same forms: the panicking (deprecated) spelling and the
+        // date-time builders on NaiveDate agree with the fallible constructor
+        #[allow(deprecated)]
+        {
+            let d = chrono::NaiveDate::from_ymd_opt(2001, 2, 3).ok_or("harness: date")?;
+            let via_date = match k {
+                0 => Some(call("and_hms_opt", || d.and_hms_opt(h, m, s))?),
+                1 => Some(call("and_hms_milli_opt", || d.and_hms_milli_opt(h, m, s, sub))?),
+                2 => Some(call("and_hms_micro_opt", || d.and_hms_micro_opt(h, m, s, sub))?),
+                3 => Some(call("and_hms_nano_opt", || d.and_hms_nano_opt(h, m, s, sub))?),
+                _ => None,
+            };
+            if let Some(v) = via_date {
+                ensure_eq!(v, got.map(|t| d.and_time(t)), "NaiveDate::and_hms*_opt form {k} ({h}, {m}, {s}, {sub}) vs NaiveTime constructor");
+            }
+            let pan = crate::guard::guard(|| match k {
+                0 => NaiveTime::from_hms(h, m, s),
+                1 => NaiveTime::from_hms_milli(h, m, s, sub),
+                2 => NaiveTime::from_hms_micro(h, m, s, sub),
+                3 => NaiveTime::from_hms_nano(h, m, s, sub),
+                _ => NaiveTime::from_num_seconds_from_midnight(h, sub),
+            });
+            ensure_eq!(pan.ok(), got, "panicking constructor form {k} ({h}, {m}, {s}, {sub}) vs the fallible one (panic <-> None)");
+            let pand = crate::guard::guard(|| match k {
+                0 => d.and_hms(h, m, s),
+                1 => d.and_hms_milli(h, m, s, sub),
+                2 => d.and_hms_micro(h, m, s, sub),
+                _ => d.and_hms_nano(h, m, s, sub),
+            });
+            if k < 4 {
+                ensure_eq!(pand.ok(), got.map(|t| d.and_time(t)), "panicking NaiveDate::and_hms* form {k} ({h}, {m}, {s}, {sub})");
+            }
+        }
         Ok(())
     }
 }
@@ -264,10 +297,23 @@ impl SubCheck for Add {
         let mut y = x;
         call("SubAssign", || y -= td)?;
         ensure_eq!(T::of(&y), mexp, "operator -=");
-        if d >= 0 && d < 2 * DAY_NS {
+        if d >= 0 {
             let sd = td.to_std().map_err(|_| "harness: to_std")?;
             ensure_eq!(T::of(&call("Add<Duration>", || x + sd)?), exp, "operator + std Duration");
             ensure_eq!(T::of(&call("Sub<Duration>", || x - sd)?), mexp, "operator - std Duration");
+            // std durations reach far beyond TimeDelta: whole days on top, up to u64::MAX seconds
+            let room = (u64::MAX - sd.as_secs()) / 86_400;
+            let k = [1u64, 2, 3, 4, 1_000_001, room - 1, room][((t.secs as u64 + c.n as u64) % 7) as usize].min(room);
+            let big = std::time::Duration::new(sd.as_secs() + k * 86_400, sd.subsec_nanos());
+            let bd = d + k as i128 * DAY_NS;
+            ensure_eq!(T::of(&call("Add<Duration>", || x + big)?), model_add(t, bd).0, "operator + std Duration of {bd} ns");
+            ensure_eq!(T::of(&call("Sub<Duration>", || x - big)?), model_add(t, -bd).0, "operator - std Duration of {bd} ns");
+            let mut y = x;
+            call("AddAssign<Duration>", || y += big)?;
+            ensure_eq!(T::of(&y), model_add(t, bd).0, "operator += std Duration of {bd} ns");
+            let mut y = x;
+            call("SubAssign<Duration>", || y -= big)?;
+            ensure_eq!(T::of(&y), model_add(t, -bd).0, "operator -= std Duration of {bd} ns");
         }
         // validity of the result
         ensure!(exp.secs < 86_400 && got.nanosecond() < 2_000_000_000, "invalid time returned");
@@ -356,6 +402,19 @@ impl SubCheck for DtLeap {
         let d = c.ns();
         let ndt = conv::date(z).and_time(t.build()?);
         let td = c.td()?;
+        // accessors of the date-time wrappers name the same fields as the time of day
+        {
+            use chrono::Timelike;
+            let (h, mi, se) = (t.secs / 3600, t.secs / 60 % 60, t.secs % 60);
+            let zdt = ndt.and_utc();
+            ensure_eq!((ndt.hour(), ndt.minute(), ndt.second(), ndt.nanosecond()), (h, mi, se, t.frac), "NaiveDateTime accessors of {t:?}");
+            ensure_eq!((zdt.hour(), zdt.minute(), zdt.second(), zdt.nanosecond()), (h, mi, se, t.frac), "DateTime<Utc> accessors of {t:?}");
+            ensure_eq!(ndt.num_seconds_from_midnight(), t.secs, "NaiveDateTime::num_seconds_from_midnight of {t:?}");
+            ensure_eq!(zdt.num_seconds_from_midnight(), t.secs, "DateTime::num_seconds_from_midnight of {t:?}");
+            let h12 = (h >= 12, if h % 12 == 0 { 12 } else { h % 12 });
+            ensure_eq!(ndt.hour12(), h12, "NaiveDateTime::hour12 of {t:?}");
+            ensure_eq!(zdt.hour12(), h12, "DateTime::hour12 of {t:?}");
+        }
         for (name, dd, neg) in [("checked_add_signed", d, false), ("checked_sub_signed", -d, true)] {
             let (et, carry) = model_add(t, dd);
             obs.nt_if(carry != 0, "day_carry");
